@@ -90,3 +90,15 @@ void h_rep_transform(void) {
     VF_CALL_V(Repetition__transform, this_, magnification, x_reflection, rotation);
 }
 #endif
+
+#ifdef VF_ENTRY_h_rep_offsets
+uint64_t IN_gi, IN_gj;
+void h_rep_offsets(void) {
+    c11_state();
+    VF_IN(u64, IN_gi); VF_IN(u64, IN_gj); GI = IN_gi; GJ = IN_gj;
+    Repetition *this_ = &c11_rep;
+    memset(&c11_result, 0, sizeof c11_result);
+    Array_Vec2 *result = &c11_result;
+    VF_CALL_V(Repetition__get_offsets, this_, result);
+}
+#endif
